@@ -36,6 +36,9 @@ import GM.Props.Inlines
 import GM.Props.Attribute
 import GM.Props.Convert
 import GM.Props.ConvertE2E
+import GM.Props.Consts.Parser
+import GM.Props.ConvertNP
+import GM.Props.Wf0
 
 namespace GM.Props.C01
 open GM
@@ -144,5 +147,115 @@ theorem convert_no_render_panic : type_of% @GM.Props.ConvertE2E.convert_no_rende
     assignment and option set. The RANGE of the inline segments is not a hypothesis: it follows from the `WF0` check
     `convertCore` makes and the segment theorem of the inline phase. -/
 theorem convert_no_value_panic_partial : type_of% @GM.Props.ConvertE2E.convert_no_value_panic_partial := @GM.Props.ConvertE2E.convert_no_value_panic_partial
+
+/-- (package consts) the regular expressions, tag list, limits and marker bytes of parser/*.go are the ones the block / inline models were written against (obligations over the regenerated GM.Gen.Consts; `./check` names the constant when one changes) -/
+theorem consts_html_block_regexps_tied : GM.Spec.Consts.allOk GM.Spec.Consts.htmlBlockRegexps = true := GM.Props.Consts.Parser.html_block_regexps_tied
+/-- (package consts) `allowedBlockTags` and the type 2-5 closers of parser/html_block.go are the block model's -/
+theorem consts_html_block_tags_tied : GM.Spec.Consts.allOk GM.Spec.Consts.htmlBlockTags = true := GM.Props.Consts.Parser.html_block_tags_tied
+/-- (package consts) the raw-HTML tag expressions of parser/raw_html.go are the ones the inline model's matchers were written against -/
+theorem consts_raw_html_regexps_tied : GM.Spec.Consts.allOk GM.Spec.Consts.rawHtmlRegexps = true := GM.Props.Consts.Parser.raw_html_regexps_tied
+/-- (package consts) the autolink expressions and bounds of parser/auto_link.go are the inline model's -/
+theorem consts_autolink_regexps_tied : GM.Spec.Consts.allOk GM.Spec.Consts.autolinkRegexps = true := GM.Props.Consts.Parser.autolink_regexps_tied
+/-- (package consts) the numeric limits of the parsers (label length 999, list start 9 digits, indents 3/4, fence 3, ATX 6, ...) are the models' -/
+theorem consts_limits_tied : GM.Spec.Consts.allOk GM.Spec.Consts.limits = true := GM.Props.Consts.Parser.limits_tied
+/-- (package consts) bullet / delimiter / fence / heading / emphasis marker bytes are the models' -/
+theorem consts_markers_tied : GM.Spec.Consts.allOk GM.Spec.Consts.markers = true := GM.Props.Consts.Parser.markers_tied
+
+/-- (re-export of `GM.Props.ConvertNP.scan_total_and_ranges_adjacent`) **The ranges the transformer's scan hands to its second loop are adjacent from line 0 on, non-empty, and end inside the
+    paragraph** — for every source, every paragraph whose lines are well-formed (`WFSegs`: inside the source, increasing,
+    non-empty, paddings ≥ 0 — ANY paddings, i.e. also continuation lines behind a partly consumed tab inside a container)
+    and none of which is blank (the paragraph parser never appends a blank line), every reference map. Moreover the scan
+    itself is TOTAL on such lines: no Go panic (`line[pos]`, `Advance`, `Value`), no fuel exhaustion, the progress monitor
+    of the model does not fire. True of the code since /repo 0539a73 (a definition leaves the reader at the start of the
+    line behind it, or in front of white space only). -/
+theorem link_reference_scan_total_and_adjacent : type_of% @GM.Props.ConvertNP.scan_total_and_ranges_adjacent := @GM.Props.ConvertNP.scan_total_and_ranges_adjacent
+
+/-- (re-export of `GM.Props.ConvertNP.scan_ranges_adjacent`) **`GM.Props.Convert.ScanRangesAdjacent` is a theorem** (it was stated there as a `def … : Prop`): on a paragraph with
+    well-formed padding-free non-blank lines the ranges the scan answers are adjacent from line 0 on and end inside the
+    paragraph, so contract monitor (3) of `GM.LinkRef.finishLines` is unreachable. -/
+theorem link_reference_ranges_adjacent : type_of% @GM.Props.ConvertNP.scan_ranges_adjacent := @GM.Props.ConvertNP.scan_ranges_adjacent
+
+/-- (re-export of `GM.Props.ConvertNP.second_loop_total`) the second stage of Transform on what the scan answers: the monitor passes, no `slice` panic of
+    `Sliced` / `SetSliced`, no stale-elements `pre`; the paragraph keeps its lines without the first `lastEnd` ones -/
+theorem link_reference_second_loop_total : type_of% @GM.Props.ConvertNP.second_loop_total := @GM.Props.ConvertNP.second_loop_total
+
+/-- (re-export of `GM.Props.ConvertNP.transform_scan_total_padded`) **the scan is total on well-formed lines with ANY paddings, blank lines allowed** (or on no lines): no Go panic, no fuel
+    exhaustion, the progress monitor silent. (GM.Props.Convert.transform_scan_total has this for padding-free lines,
+    transform_never_loops only termination for padded ones.) -/
+theorem link_reference_scan_total_padded : type_of% @GM.Props.ConvertNP.transform_scan_total_padded := @GM.Props.ConvertNP.transform_scan_total_padded
+
+/-- (re-export of `GM.Props.ConvertNP.transform_total`) **`linkReferenceParagraphTransformer.Transform` is total**: from EVERY block-phase state, on a node whose lines are fit
+    for it (`TLinesOK`: no lines, or `WFSegs` with any paddings and no blank line) and that has a parent: no Go panic — the
+    scan, `Sliced` / `SetSliced`, `node.Parent().ReplaceChild` —, no fuel exhaustion, none of the model's monitors; and
+    what it does to the state is `PTPost`: the main reader is untouched, of the context only the reference map changes,
+    the paragraph loses an initial segment of its lines and keeps one, or loses all and an empty TextBlock takes its
+    place among its parent's children (link_ref.go:41-50). -/
+theorem link_reference_transform_total : type_of% @GM.Props.ConvertNP.transform_total := @GM.Props.ConvertNP.transform_total
+
+/-- (re-export of `GM.Props.ConvertNP.transform_total_or_monitor`) … and the whole of Transform on such a paragraph with a parent: `PTPost`, or contract monitor (3) answered `pre` — never a
+    Go panic, never the fuel error. (With a blank line among the lines the monitor CAN fire: the example above.) -/
+theorem link_reference_transform_total_or_monitor : type_of% @GM.Props.ConvertNP.transform_total_or_monitor := @GM.Props.ConvertNP.transform_total_or_monitor
+
+/-- (re-export of `GM.Props.ConvertNP.default_transformers_contract`) **the transformer of the composition, `GM.LinkRef.guardedTransform` (Transform behind the run-time check `WFSegs`),
+    never raises a Go panic and never exhausts fuel**, from any state, on any Paragraph node that has a parent: it ends as
+    `PTPost` says, or answers `pre` (the check or monitor (3)). In the form the driver theorem consumes: `PTsSpec src pre` of
+    the default transformer list of `GM.Convert.blockPhase true`. -/
+theorem default_transformers_contract : type_of% @GM.Props.ConvertNP.default_transformers_contract := @GM.Props.ConvertNP.default_transformers_contract
+
+/-- (re-export of `GM.Props.ConvertNP.guarded_transformer_contract`) **the contract of the guarded transformer** (`guardE e`: Transform behind the run-time check `linesOKB` of exactly the
+    hypothesis above, the check answering `e`): on a Paragraph node that has a parent, from any state, it ends as `PTPost`
+    says or answers `e` — for EVERY choice of `e`, so the check is the only source of an abnormal end. This is the
+    hypothesis `PTsSpec` of the driver theorem. -/
+theorem guarded_transformer_contract : type_of% @GM.Props.ConvertNP.guarded_transformer_contract := @GM.Props.ConvertNP.guarded_transformer_contract
+
+/-- (re-export of `GM.Props.ConvertNP.no_underline_of_setext_free`) a decidable sufficient condition: the source has neither `-` nor `=` -/
+theorem no_underline_of_setext_free : type_of% @GM.Props.ConvertNP.no_underline_of_setext_free := @GM.Props.ConvertNP.no_underline_of_setext_free
+
+/-- (re-export of `GM.Props.ConvertNP.no_underline_of_check`) a decidable sufficient condition that allows `-` and `=`: the executable test `noBarB` (the views from every byte offset with
+    the paddings 0..3; more than 3 leading spaces never make an underline) -/
+theorem no_underline_of_check : type_of% @GM.Props.ConvertNP.no_underline_of_check := @GM.Props.ConvertNP.no_underline_of_check
+
+/-- (re-export of `GM.Props.ConvertNP.block_phase_with_transformers_total_partial`) **the block driver with paragraph transformers is total, for EVERY list of transformers that keep the contract** — on every
+    source without a setext underline (`NoUnderline`), ALL ten block parsers, lists included: `parseBlocks` with
+    `transformParagraph` called from `closeBlocks` returns a tree all of whose line segments lie inside the source, or a
+    transformer's run-time guard answered `e`. No Go panic of parseBlocks / openBlocks / closeBlocks / the block parsers / the
+    tree surgery, no fuel exhaustion, and NEITHER contract monitor of the retry loop (`retryStepT` (1)/(2)) fires. `_partial`:
+    on sources with an underline the RequireParagraph path is live; what its proof needs is in notes/status_tnopanic.md. -/
+theorem block_phase_with_transformers_total_partial : type_of% @GM.Props.ConvertNP.block_phase_with_transformers_total_partial := @GM.Props.ConvertNP.block_phase_with_transformers_total_partial
+
+/-- (re-export of `GM.Props.ConvertNP.block_phase_with_transformers_total_list_free`) the same from the list-free core of the proof (GM.Proof.BlocksTNP1/2/4/5: no list invariant; sources without
+    `-` `=` `*` `+` and digits) — subsumed by the theorem above, kept because it is the readable core of the list-aware walk -/
+theorem block_phase_with_transformers_total_list_free : type_of% @GM.Props.ConvertNP.block_phase_with_transformers_total_list_free := @GM.Props.ConvertNP.block_phase_with_transformers_total_list_free
+
+/-- (re-export of `GM.Props.ConvertNP.block_phase_no_go_panic_partial`) **goal (c), partial — the block phase of the default pipeline never raises a Go panic** on such sources:
+    `GM.Convert.blockPhase true src` (the link reference transformer behind its run-time check) returns a tree with all line
+    segments in range, or answers `pre` — the outcome of the run-time check `WFSegs` and of contract monitor (3), the only
+    abnormal ends left; every Go run-time panic of the model (`index`, `slice`, `nil`, `assert`, `explicit`) and the fuel error
+    are excluded. -/
+theorem block_phase_no_go_panic_partial : type_of% @GM.Props.ConvertNP.block_phase_no_go_panic_partial := @GM.Props.ConvertNP.block_phase_no_go_panic_partial
+
+/-- (re-export of `GM.Props.ConvertNP.block_phase_total_modulo_guard_partial`) **goal (c), partial, in the form that composes with "the guard never fires"** (package `wf0`): with the transformer behind
+    the check `linesOKB` (`WFSegs` ∧ no blank line) whose outcome `e` is a PARAMETER, the run ends normally or with `e` — for
+    every `e`. Since `e` is arbitrary, the check is the only source of an abnormal end: if `runT [guardE e] src` is the same
+    for two different `e` (e.g. because the check never fires), it is `.ok`. -/
+theorem block_phase_total_modulo_guard_partial : type_of% @GM.Props.ConvertNP.block_phase_total_modulo_guard_partial := @GM.Props.ConvertNP.block_phase_total_modulo_guard_partial
+
+/-- (re-export of `GM.Props.ConvertNP.monitors_never_fire_partial`) **goal (d), partial — none of the model's contract monitors fires** on such sources: with the guard's outcome chosen different
+    from `pre` (the code every monitor answers: retry monitors (1)/(2) of `retryStepT`, the progress monitor of the scan, the
+    stale-elements check of `removeLoop`, contract monitor (3) of `finishLines`), the run never ends in `pre` -/
+theorem monitors_never_fire_partial : type_of% @GM.Props.ConvertNP.monitors_never_fire_partial := @GM.Props.ConvertNP.monitors_never_fire_partial
+
+/-- (re-export of `GM.Props.ConvertNP.total_of_guard_irrelevant`) how the two results compose (no hypothesis on the source here): if the guard's outcome does not influence the run — what
+    "the guard never fires" gives — then a run that ends "normally or with `e`" for every `e` ends normally -/
+theorem total_of_guard_irrelevant : type_of% @GM.Props.ConvertNP.total_of_guard_irrelevant := @GM.Props.ConvertNP.total_of_guard_irrelevant
+
+/-- (re-export of `GM.Props.Wf0.inline_bearing_wellformed`) the hand-over, as far as it is proved: every inline-bearing block of the final store has `WFSegs` lines (all of
+    `WF0` but `padding = 0`) -/
+theorem inline_handover_wellformed : type_of% @GM.Props.Wf0.inline_bearing_wellformed := @GM.Props.Wf0.inline_bearing_wellformed
+
+/-- (re-export of `GM.Props.Wf0.inline_wf0_remaining`) **what the hand-over to the inline phase still needs**: with order, range, non-emptiness and "no ForceNewline"
+    proved, `InlineLinesWF0 src` (every inline-bearing block has `WF0` lines) is equivalent to ONE fact: every line
+    segment of an inline-bearing block of the final store has padding 0. -/
+theorem inline_handover_remaining : type_of% @GM.Props.Wf0.inline_wf0_remaining := @GM.Props.Wf0.inline_wf0_remaining
 
 end GM.Props.C01
